@@ -15,6 +15,8 @@ from fractions import Fraction
 import sympy as sp
 import z3
 
+from vlib.par import guarded
+
 
 class Unencodable(Exception):
     pass
@@ -561,13 +563,22 @@ class Query:
         for c in constraints:
             s.add(c)
         t0 = time.time()
-        r = s.check()
+        with guarded("z3 check (Query)"):
+            r = s.check()
         dt = time.time() - t0
         if self.ctx is not None:
             self.ctx.add_solver(1, dt)
         res = str(r)
         model = s.model() if res == "sat" else None
+        why_unknown = ""
         if res == "unknown":
+            try:
+                why_unknown = str(s.reason_unknown())
+            except Exception:
+                why_unknown = ""
+        # second strategy only where the first one gave up for a reason other than time: after a timeout the explicit nlsat tactic
+        # would most likely time out too, and its polynomial factorisation has been seen to ignore the time limit altogether
+        if res == "unknown" and "timeout" not in why_unknown and "cancel" not in why_unknown:
             # second strategy: explicit nlsat tactic
             try:
                 t = z3.Then("simplify", "purify-arith", "propagate-values", "solve-eqs", "qfnra-nlsat").solver()
@@ -575,7 +586,8 @@ class Query:
                 for c in constraints:
                     t.add(c)
                 t0 = time.time()
-                r2 = t.check()
+                with guarded("z3 nlsat tactic (Query)"):
+                    r2 = t.check()
                 if self.ctx is not None:
                     self.ctx.add_solver(1, time.time() - t0)
                 if str(r2) != "unknown":
